@@ -10,6 +10,10 @@
 //	req                          a request for every endpoint through every live node
 //	shutdown <i> <inflight 0|1>  graceful Server.Shutdown of node i (optionally with a slow
 //	                             request in flight through it), then wait for recovery
+//	shutdown-inflight <i>        graceful Shutdown of node i while a 3 s request is in flight on
+//	                             its proxy: the traffic must be withdrawn from it (endpoints no
+//	                             longer advertised / listeners reconnected / requests served by
+//	                             every survivor) within 2.2 s of the START of Shutdown
 //	kill <i>                     abrupt loss, IN-PROCESS APPROXIMATION: node i's TCP listeners and
 //	                             gossip sockets are closed without Leave and every upstream TCP
 //	                             connection to it is cut; its goroutines keep running isolated
@@ -53,8 +57,10 @@ import (
 
 const (
 	gossipInterval = 50 * time.Millisecond
-	gracePeriod    = 2 * time.Second
-	settleBound    = 20 * time.Second // routing information settles / listeners reconnect (generous: the box may be loaded)
+	gracePeriod    = 6 * time.Second
+	slowInflight   = 3 * time.Second         // the in-flight request of `shutdown-inflight` (below the grace period)
+	drainBand      = 2200 * time.Millisecond // traffic must be withdrawn this soon after Shutdown starts (while that request is still in flight)
+	settleBound    = 20 * time.Second        // routing information settles / listeners reconnect (generous: the box may be loaded)
 	pollEvery      = 10 * time.Millisecond
 	maxNotified    = 4 // pkg/gossip Leave: `notified > 3`
 )
@@ -188,6 +194,8 @@ type nodeEngine struct {
 	lb      *lb
 	ls      map[int]*lst
 	hc      *http.Client
+	// a `/hold` request reached a listener's handler
+	holdStarted chan struct{}
 	// decision-table rig
 	rig *rig
 	// proc tier
@@ -303,6 +311,7 @@ func (e *nodeEngine) startNodes(n int) bool {
 	}
 	e.lb = newLB(ups)
 	e.ls = map[int]*lst{}
+	e.holdStarted = make(chan struct{}, 16)
 	e.hc = &http.Client{Transport: &http.Transport{DisableKeepAlives: true}, Timeout: 3 * time.Second}
 	e.started = true
 	return e.waitFor(3*settleBound, func() bool {
@@ -560,6 +569,14 @@ func (e *nodeEngine) step(ws []string, o *Out) string {
 			time.Sleep(300 * time.Millisecond)
 			_, _ = io.WriteString(w, strconv.Itoa(k))
 		})
+		mux.HandleFunc("/hold", func(w http.ResponseWriter, _ *http.Request) {
+			select {
+			case e.holdStarted <- struct{}{}:
+			default:
+			}
+			time.Sleep(slowInflight)
+			_, _ = io.WriteString(w, strconv.Itoa(k))
+		})
 		go func() { l.done <- http.Serve(ln, mux) }()
 		e.ls[k] = l
 		// settle: registered, and every live node can route the endpoint
@@ -589,16 +606,69 @@ func (e *nodeEngine) step(ws []string, o *Out) string {
 			o.Fail("C18", "requests-fail", res+" tables: "+e.diag())
 		}
 		return "ok " + res
-	case "shutdown":
-		if len(ws) != 3 {
+	case "shutdown", "shutdown-inflight":
+		drain := ws[0] == "shutdown-inflight"
+		if (!drain && len(ws) != 3) || (drain && len(ws) != 2) {
 			return "bad-op"
 		}
 		i := Atoi(ws[1])
 		if i < 0 || i >= len(e.nodes) || !e.nodes[i].alive || len(e.survivors()) < 2 {
 			return "bad-op"
 		}
+		if drain && len(e.ls) == 0 {
+			return "bad-op"
+		}
 		n := e.nodes[i]
-		if ws[2] == "1" {
+		var holdRes chan int
+		if drain {
+			// a slow request (slowInflight, below the grace period) in flight on node i's proxy
+			// when Shutdown starts: preferably for an endpoint served only by ANOTHER node, so
+			// that it keeps the proxy of node i draining for its whole duration on the tree as it
+			// is (node i closes its own upstreams first, which would cut a local one short)
+			ep, remote := "", false
+			var eps []string
+			for x := range e.want() {
+				eps = append(eps, x)
+			}
+			sort.Strings(eps)
+			for _, x := range eps {
+				if ep == "" {
+					ep = x
+				}
+				if n.srv.ClusterState().LocalNode().Endpoints[x] == 0 {
+					ep, remote = x, true
+					break
+				}
+			}
+			for len(e.holdStarted) > 0 {
+				<-e.holdStarted
+			}
+			holdRes = make(chan int, 1)
+			go func() {
+				req, _ := http.NewRequest(http.MethodGet, "http://"+n.srv.Config().Proxy.AdvertiseAddr+"/hold", nil)
+				req.Header.Set("x-piko-endpoint", ep)
+				hc := &http.Client{Transport: &http.Transport{DisableKeepAlives: true}, Timeout: slowInflight + gracePeriod}
+				resp, err := hc.Do(req)
+				if err != nil {
+					holdRes <- 0
+					return
+				}
+				_, _ = io.Copy(io.Discard, resp.Body)
+				_ = resp.Body.Close()
+				holdRes <- resp.StatusCode
+			}()
+			select {
+			case <-e.holdStarted:
+			case <-time.After(settleBound):
+				o.Fail("C18", "inflight-request-not-started", Hx(ep))
+			}
+			if remote {
+				o.Count("drain:inflight-served-by-another-node")
+			} else {
+				o.Count("drain:inflight-served-by-the-leaving-node")
+			}
+		}
+		if !drain && ws[2] == "1" {
 			// a slow request in flight through the node that is shutting down
 			for ep := range e.want() {
 				go e.request(n, ep, "/slow")
@@ -661,6 +731,42 @@ func (e *nodeEngine) step(ws []string, o *Out) string {
 		t0 := time.Now()
 		done := make(chan struct{})
 		go func() { n.srv.Shutdown(); close(done) }()
+		drainStr := ""
+		if drain {
+			// while the node may still be draining its proxy: the traffic has to be withdrawn
+			// from it at once, not when the slowest in-flight request is finished
+			n.alive = false // `survivors`, `total`, `requests` now speak about the others
+			detail := ""
+			withdrawn := false
+			for time.Since(t0) < drainBand {
+				detail = ""
+				for _, s := range e.survivors() {
+					if row, ok := s.srv.ClusterState().Node(n.id); ok && row.Status == cluster.NodeStatusActive && len(row.Endpoints) > 0 {
+						detail = s.id + " still has " + n.id + " active with endpoints " + ShowCounts(row.Endpoints)
+					}
+				}
+				if detail == "" && ShowCounts(e.total()) != ShowCounts(e.want()) {
+					detail = "registered-on-survivors=" + ShowCounts(e.total()) + " listeners=" + ShowCounts(e.want())
+				}
+				if detail == "" {
+					if res, all := e.requests(); !all {
+						detail = "requests: " + res
+					}
+				}
+				if detail == "" {
+					withdrawn = true
+					break
+				}
+				time.Sleep(pollEvery)
+			}
+			o.Add("drain-withdrawn-ms", int(time.Since(t0).Milliseconds()))
+			if withdrawn {
+				drainStr = " drain=withdrawn"
+			} else {
+				drainStr = " drain=held"
+				o.Fail("C18", "traffic-not-withdrawn-during-drain", fmt.Sprintf("%s: %dms after Shutdown started (request in flight on its proxy for %s): %s", n.id, time.Since(t0).Milliseconds(), slowInflight, detail))
+			}
+		}
 		select {
 		case <-done:
 		case <-time.After(gracePeriod + 2*time.Second):
@@ -669,6 +775,14 @@ func (e *nodeEngine) step(ws []string, o *Out) string {
 		}
 		o.Add("shutdown-ms", int(time.Since(t0).Milliseconds()))
 		n.alive = false
+		if holdRes != nil {
+			select {
+			case code := <-holdRes:
+				o.Count("drain:inflight-request-status-" + strconv.Itoa(code))
+			case <-time.After(slowInflight + gracePeriod):
+				o.Count("drain:inflight-request-never-returned")
+			}
+		}
 		// the peers it notified have status left at once (Leave waits for each ack).  Leave only
 		// tries the peers the node's own gossip state does not flag unreachable/left; that state
 		// is frozen by Close right after Leave, so it is read back here
@@ -711,7 +825,7 @@ func (e *nodeEngine) step(ws []string, o *Out) string {
 			o.Fail("C18", "upstream-"+upAtLeave+"-at-leave", n.id+": the left marker was written while the upstream server had not been shut down")
 		}
 		e.leaveOrder(n, o)
-		return "ok lost=" + n.id + " upstream-at-leave=" + upAtLeave + " notified=" + notifiedStr + " " + e.recover(n, string(cluster.NodeStatusLeft), o)
+		return "ok lost=" + n.id + drainStr + " upstream-at-leave=" + upAtLeave + " notified=" + notifiedStr + " " + e.recover(n, string(cluster.NodeStatusLeft), o)
 	case "kill":
 		if len(ws) != 2 {
 			return "bad-op"
@@ -1212,9 +1326,12 @@ func (e *nodeEngine) Gen(r *rand.Rand, n int, tier string, w *bufio.Writer) {
 			k++
 		}
 		fmt.Fprintln(w, "req")
-		if r.Intn(3) == 0 {
+		switch x := r.Intn(12); {
+		case x < 4:
 			fmt.Fprintf(w, "kill %d\n", lost)
-		} else {
+		case x < 6:
+			fmt.Fprintf(w, "shutdown-inflight %d\n", lost)
+		default:
 			fmt.Fprintf(w, "shutdown %d %d\n", lost, r.Intn(2))
 		}
 		fmt.Fprintln(w, "req")
